@@ -1478,6 +1478,15 @@ class Mailbox:
         #       sequences back in after the pack.
         #
         async with self.mh_sequences_lock:
+            # Packing renumbers every message in the folder. If the folder
+            # holds messages we have not seen yet (delivered within the same
+            # second as our last look at the folder, so the mtime did not
+            # give them away) they have no UID's yet: do not pack now, let
+            # the next resync find them first.
+            #
+            if [int(x) for x in self.mailbox.keys()] != self.msg_keys:
+                self.optional_resync = False
+                return False
             self.set_sequences_in_folder(self.sequences)
             self.mailbox.pack()
             self.msg_keys = [int(x) for x in self.mailbox.iterkeys()]
